@@ -201,7 +201,7 @@ macro_rules! for_all_n {
 }
 
 pub fn run(ctx: &mut Ctx) {
-    let reps = if ctx.thorough() { 60 } else { 8 };
+    let reps = if ctx.thorough() { 300 } else { 8 };
     let ns = [1usize, 2, 3, 5, 8, 13];
     let mut idx = 0;
     for rep in 0..reps {
